@@ -84,6 +84,11 @@ LAYOUTS = {
     "template_in_range_loop": ({"tinc.xbb": tinc(), "main.xbb": ["name main", "version 1.0", 'include "tinc.xbb"', "", "float x = %(f)s", "for float t in 1:4", "    tinc(alpha=t*x, beta=2) | [5, 6]"]}, "main.xbb"),
     "template_same_text_redeclared_variable": ({"tinc.xbb": tinc(), "main.xbb": ["name main", "version 1.0", 'include "tinc.xbb"', "", "float x = %(f)s", "tinc(alpha=x, beta=2) | [0, 1]",
                                                                                  "float x = %(f)s", "tinc(alpha=x, beta=2) | [0, 1]", "tinc(alpha=x, beta=2) | [2, 3]"]}, "main.xbb"),
+    # several calls of one template whose keyword values are equal under == but differ in kind or in the sign of zero
+    # (1 == 1.0 == True, 0 == 0.0 == -0.0 == False): every call is bound to its own values
+    "template_calls_equal_values_other_kinds": ({"prep.xbb": ["name Prep", "version 1.0", "", "Fock({n}) | %(a)s", "Rgate({phi}, k={n}) | %(a)s", "Gate(select={s}) | %(b)s"],
+                                                 "main.xbb": ["name main", "version 1.0", 'include "prep.xbb"', "", "Prep(n=1, phi=0.0, s=0) | [0, 1]", "Prep(n=1.0, phi=-0.0, s=False) | [0, 1]",
+                                                              "Prep(n=True, phi=0, s=0.0) | [2, 3]", "Prep(s=0, phi=0.0, n=1) | [1, 0]"]}, "main.xbb"),
     # a mode listed twice in the call: the arity is the number of modes written, the renaming maps both to the same mode
     "repeated_mode_in_call": ({"inc.xbb": inc2(), "main.xbb": ["name main", "version 1.0", 'include "inc.xbb"', "", "inc | [4, 4]", "Vac | 4"]}, "main.xbb"),
     "bad_arity_repeated_mode": ({"inc.xbb": inc2(), "main.xbb": ["name main", "version 1.0", 'include "inc.xbb"', "", "inc | [4, 4, 5]"]}, "main.xbb"),
